@@ -212,20 +212,21 @@ func traceModule(sp *Program, mod string, states []*State) string {
 	return sb.String()
 }
 
+var devPcalOnly bool // development aid: stop after pcal
+
 var reDepth = regexp.MustCompile(`depth of the complete state graph search is (\d+)`)
 
 type calibOutcome struct {
-	Index    int    `json:"index"`
-	States   int    `json:"states"`
-	Accepted bool   `json:"accepted"`
-	Problem  string `json:"problem,omitempty"`
-	Quirk    bool   `json:"tail_call_into_other_procedure"` // the PcalMode switch mattered for this program
-	Wall     float64
+	Index    int     `json:"index"`
+	States   int     `json:"states"`
+	Accepted bool    `json:"accepted"`
+	Problem  string  `json:"problem,omitempty"`
+	Quirk    bool    `json:"tail_call_into_other_procedure"` // the PcalMode switch mattered for this program
+	Wall     float64 `json:"wall_s"`
 }
 
 // calibrateOne runs pcal + TLC for program p; corrupt > 0 additionally damages the predicted trace (self-test).
-func calibrateOne(p *Program, dir string, corrupt bool) calibOutcome {
-	var out calibOutcome
+func calibrateOne(p *Program, dir string, corrupt bool, pcalMode bool) (out calibOutcome) {
 	start := time.Now()
 	defer func() { out.Wall = time.Since(start).Seconds() }()
 	_, sp, err := vet(p)
@@ -233,7 +234,7 @@ func calibrateOne(p *Program, dir string, corrupt bool) calibOutcome {
 		out.Problem = "vet: " + err.Error()
 		return out
 	}
-	in := NewInterp(sp, true)
+	in := NewInterp(sp, pcalMode)
 	states := []*State{in.St}
 	steps, err := in.RunAll(maxRefSteps)
 	if err != nil {
@@ -286,8 +287,13 @@ func calibrateOne(p *Program, dir string, corrupt bool) calibOutcome {
 	}
 	cmd := exec.Command("pcal", "-nocfg", mod+".tla")
 	cmd.Dir = dir
+	cmd.Env = javaEnv()
 	if b, err := cmd.CombinedOutput(); err != nil || !strings.Contains(string(b), "Translation completed") {
 		out.Problem = "pcal rejected the program: " + tailStr(string(b), 400)
+		return out
+	}
+	if devPcalOnly {
+		out.Accepted = true
 		return out
 	}
 	if err := os.WriteFile(filepath.Join(dir, mod+"Trace.tla"), []byte(traceModule(sp, mod, states)), 0o644); err != nil {
@@ -296,8 +302,9 @@ func calibrateOne(p *Program, dir string, corrupt bool) calibOutcome {
 	}
 	cfg := "CONSTANT defaultInitValue = defaultInitValue\nINIT TInit\nNEXT TNext\nINVARIANT NotAccepted\n"
 	_ = os.WriteFile(filepath.Join(dir, mod+"Trace.cfg"), []byte(cfg), 0o644)
-	tlc := exec.Command("tlc", "-deadlock", "-workers", "1", "-metadir", filepath.Join(dir, "states"), mod+"Trace.tla")
+	tlc := exec.Command("tlc", "-deadlock", "-workers", "1", "-noGenerateSpecTE", "-metadir", filepath.Join(dir, "states"), mod+"Trace.tla")
 	tlc.Dir = dir
+	tlc.Env = javaEnv()
 	done := make(chan struct{})
 	var b []byte
 	go func() { b, _ = tlc.CombinedOutput(); close(done) }()
@@ -325,6 +332,11 @@ func calibrateOne(p *Program, dir string, corrupt bool) calibOutcome {
 	return out
 }
 
+// javaEnv keeps the JVMs of pcal and TLC small: the specs are tiny and many checks share the machine.
+func javaEnv() []string {
+	return append(os.Environ(), "JAVA_TOOL_OPTIONS=-XX:TieredStopAtLevel=1 -XX:ParallelGCThreads=1 -XX:CICompilerCount=1 -Xmx512m")
+}
+
 func tailStr(s string, n int) string {
 	s = strings.TrimSpace(s)
 	if len(s) > n {
@@ -343,43 +355,59 @@ type calibration struct {
 	rejected int
 	quirk    int
 	selfTest string
+	selfOnce sync.Once
 	states   int
 }
 
 type calibJob struct {
-	idx int
-	p   *Program
+	idx      int
+	p        *Program
+	selfTest bool
 }
 
 func newCalibration(r *common.Run, n int) *calibration {
-	return &calibration{r: r, want: n, ch: make(chan calibJob, n+1)}
+	return &calibration{r: r, want: n, ch: make(chan calibJob, 2*n+2)}
 }
 
-func (c *calibration) offer(i int, p *Program) { c.ch <- calibJob{i, p.Clone()} }
-func (c *calibration) close()                  { close(c.ch) }
+func (c *calibration) offer(i int, p *Program) {
+	c.ch <- calibJob{idx: i, p: p.Clone()}
+	c.selfOnce.Do(func() { c.ch <- calibJob{idx: i, p: p.Clone(), selfTest: true} })
+}
+func (c *calibration) close() { close(c.ch) }
 
 func (c *calibration) run() {
 	dir := common.Scratch("c04-tlc")
 	defer os.RemoveAll(dir)
 	var wg sync.WaitGroup
-	workers := c.r.Pick(3, 8)
-	var first *Program
-	var firstMu sync.Mutex
+	workers := c.r.Pick(4, 12)
 	for w := 0; w < workers; w++ {
 		wg.Add(1)
 		go func(w int) {
 			defer wg.Done()
 			for job := range c.ch {
+				if job.selfTest {
+					// self-test of the calibration: a damaged trace of a program must be rejected by TLC
+					d := filepath.Join(dir, "selftest")
+					_ = os.MkdirAll(d, 0o755)
+					so := calibrateOne(job.p, d, true, true)
+					c.mu.Lock()
+					switch {
+					case so.Accepted:
+						c.selfTest = "FAILED: TLC accepted a damaged trace"
+						c.r.Inconclusive("calibration self-test: TLC accepted a damaged trace")
+					case strings.HasPrefix(so.Problem, "TLC rejects"):
+						c.selfTest = "ok: " + so.Problem
+					default:
+						c.selfTest = "inconclusive: " + so.Problem
+					}
+					c.mu.Unlock()
+					continue
+				}
 				d := filepath.Join(dir, fmt.Sprintf("w%d-%d", w, job.idx))
 				_ = os.MkdirAll(d, 0o755)
-				out := calibrateOne(job.p, d, false)
+				out := calibrateOne(job.p, d, false, true)
 				out.Index = job.idx
 				_ = os.RemoveAll(d)
-				firstMu.Lock()
-				if first == nil && out.Accepted && out.States > 6 {
-					first = job.p
-				}
-				firstMu.Unlock()
 				c.mu.Lock()
 				c.outcomes = append(c.outcomes, out)
 				if out.Accepted {
@@ -397,26 +425,20 @@ func (c *calibration) run() {
 		}(w)
 	}
 	wg.Wait()
-	// self-test of the calibration: a damaged trace must be rejected
-	if first != nil {
-		d := filepath.Join(dir, "selftest")
-		_ = os.MkdirAll(d, 0o755)
-		out := calibrateOne(first, d, true)
-		switch {
-		case out.Accepted:
-			c.selfTest = "FAILED: TLC accepted a damaged trace"
-			c.r.Inconclusive("calibration self-test: TLC accepted a damaged trace")
-		case strings.HasPrefix(out.Problem, "TLC rejects"):
-			c.selfTest = "ok: " + out.Problem
-		default:
-			c.selfTest = "inconclusive: " + out.Problem
-		}
-	}
 }
 
 func (c *calibration) summary() map[string]any {
 	c.mu.Lock()
 	defer c.mu.Unlock()
+	maxStates, maxWall := 0, 0.0
+	for _, o := range c.outcomes {
+		if o.States > maxStates {
+			maxStates = o.States
+		}
+		if o.Wall > maxWall {
+			maxWall = o.Wall
+		}
+	}
 	return map[string]any{
 		"programs_offered":                      c.want,
 		"traces_accepted_by_tlc":                c.accepted,
@@ -424,5 +446,7 @@ func (c *calibration) summary() map[string]any {
 		"rejected_or_failed":                    c.rejected,
 		"with_tail_call_into_another_procedure": c.quirk,
 		"damaged_trace_self_test":               c.selfTest,
+		"max_states_in_a_trace":                 maxStates,
+		"max_wall_s_of_one_pcal_tlc_pair":       maxWall,
 	}
 }
